@@ -160,6 +160,10 @@ fn main() {
             let mut rep = (check.run)(&ctx);
             rep.known_hits = known_lines;
             rep.stats.count("regression_replays", reg_n);
+            let d23 = vharness::scn::EXCLUDED_D23.load(std::sync::atomic::Ordering::Relaxed);
+            if d23 > 0 {
+                rep.stats.count("generated_connacks_with_known_finding_D23_trigger_removed", d23);
+            }
             for v in &rep.violations {
                 let p = write_replay(&dir, prop, v);
                 println!("check={} rule={} sig={}\n{}", v.check, v.fail.rule, v.fail.sig, v.fail.detail);
